@@ -61,24 +61,38 @@ static int write_tmp(void)
   return 1;
 }
 
+static char h_poison[8];
 static void remember(char *p, esl_pos_t n)
 {
-  if (!stable_on || p == NULL || nsaved >= NSAVE) return;
+  if (!stable_on || p == NULL || p == h_poison || n < 0 || nsaved >= NSAVE) return;
   saved[nsaved].p = p; saved[nsaved].len = (int) (n < SAVELEN ? n : SAVELEN);
   memcpy(saved[nsaved].copy, p, saved[nsaved].len); nsaved++;
 }
+
+/* Out-parameters are poisoned before every call: "on EOF/EOL <*ret_p> is NULL and <*ret_n> is 0" is part of the
+ * documented results, and a pointer left untouched must not be mistaken for a NULL. */
+#define POISON(p, n) do { (p) = h_poison; (n) = -77; } while (0)
 
 /* print the answer line; p may be NULL */
 static void answer(int status, const char *p, esl_pos_t n, int z)
 {
   int moved = 0, stale = 0, i;
+  if (status != eslOK && (p != NULL || n != 0)) {   /* documented: NULL / 0 on every non-OK return */
+    h_out("%s DIRTY-OUT-PARAMS p=%s n=%" PRId64 " off=%" PRId64, h_status(status), p == NULL ? "null" : p == h_poison ? "untouched" : "set", (int64_t) n,
+          bf ? (int64_t) esl_buffer_GetOffset(bf) : (int64_t) 0);
+    return;
+  }
+  if (p == h_poison) { h_out("%s UNTOUCHED-OUT-PARAM n=%" PRId64, h_status(status), (int64_t) n); return; }
   if (bf && stable_on) {
     if (bf->anchor == -1) { stable_on = 0; nsaved = 0; }
     else if (bf->mem != stable_mem) { moved = 1; nsaved = 0; }
     else for (i = 0; i < nsaved; i++) if (memcmp(saved[i].p, saved[i].copy, saved[i].len) != 0) stale = 1;
   }
-  h_out("%s %s n=%" PRId64 " off=%" PRId64 "%s%s%s", h_status(status), h_hex(p, p ? n : 0), (int64_t) n,
-        bf ? (int64_t) esl_buffer_GetOffset(bf) : (int64_t) 0, z ? " z=1" : "", moved ? " moved=1" : "", stale ? " stale=1" : "");
+  { char abuf[64] = "a=-";   /* the anchor in input coordinates and its count: anchors must be released, or a stream is kept in memory for ever */
+    if (bf && bf->fp && bf->anchor != -1) snprintf(abuf, sizeof(abuf), "a=%" PRId64 "/%d", (int64_t) (bf->baseoffset + bf->anchor), bf->nanchor);
+    h_out("%s %s n=%" PRId64 " off=%" PRId64 " %s%s%s%s", h_status(status), h_hex(p, p ? n : 0), (int64_t) n,
+          bf ? (int64_t) esl_buffer_GetOffset(bf) : (int64_t) 0, abuf, z ? " z=1" : "", moved ? " moved=1" : "", stale ? " stale=1" : "");
+  }
 }
 
 static void h_op(void)
@@ -92,11 +106,24 @@ static void h_op(void)
     if (!mode || !h_arg("hex")) { h_out("bad-op"); return; }
     cleanup();
     tmp = h_unhex(h_arg("hex"), &len);
-    g_data = malloc(len > 0 ? (size_t) len : 1); if (len > 0) memcpy(g_data, tmp, (size_t) len); free(tmp);
-    g_n = len;
+    { int64_t rep = h_argi("rep", 1), r;     /* input = the hex unit repeated rep times (for inputs of several MB) */
+      g_data = malloc(len * rep > 0 ? (size_t) (len * rep) : 1);
+      for (r = 0; r < rep; r++) if (len > 0) memcpy(g_data + r * len, tmp, (size_t) len);
+      free(tmp);
+      g_n = len * rep; }
     esl_verif_buffer_pagesize  = (int) h_argi("ps", 4096);
     esl_verif_buffer_forcemode = 0;
     if (!strcmp(mode, "string"))      status = esl_buffer_OpenMem((char *) g_data, g_n, &bf);
+    else if (!strcmp(mode, "cstring")) {   /* n = -1: length taken by strlen(); the generator only uses it for NUL-free inputs */
+      g_data = realloc(g_data, (size_t) g_n + 1); g_data[g_n] = 0;
+      status = esl_buffer_OpenMem((char *) g_data, -1, &bf);
+    }
+    else if (!strcmp(mode, "pipe0")) {     /* filename NULL: <cmdfmt> is the complete command */
+      char cmd[128];
+      if (!write_tmp()) { h_out("bad-op"); return; }
+      snprintf(cmd, sizeof(cmd), "cat %s", g_tmp);
+      status = esl_buffer_OpenPipe(NULL, cmd, &bf);
+    }
     else if (!strcmp(mode, "stream")) {
       g_fp = (g_n > 0) ? fmemopen(g_data, (size_t) g_n, "r") : fopen("/dev/null", "r");
       if (!g_fp) { h_out("bad-op"); return; }
@@ -119,34 +146,69 @@ static void h_op(void)
     answer(status, NULL, 0, 0);
     return;
   }
+  if (!strcmp(op, "openfail")) {
+    /* documented failures of the openers: status, a live buffer object carrying a message, nothing else */
+    const char *kind = h_arg("kind"); ESL_BUFFER *b2 = NULL;
+    if (!kind) { h_out("bad-op"); return; }
+    esl_verif_buffer_forcemode = 0;
+    if      (!strcmp(kind, "file"))  status = esl_buffer_OpenFile("h_buffer_no_such_file", &b2);
+    else if (!strcmp(kind, "open"))  status = esl_buffer_Open("h_buffer_no_such_file", NULL, &b2);
+    else if (!strcmp(kind, "pipe"))  status = esl_buffer_OpenPipe("h_buffer_no_such_file", "cat %s", &b2);
+    else if (!strcmp(kind, "cmd"))   { if (!bf || !g_tmp_live) { h_out("bad-op"); return; } status = esl_buffer_OpenPipe(g_tmp, "false %s 2>/dev/null", &b2); }
+    else { h_out("bad-op"); return; }
+    h_out("%s bf=%d msg=%d unset=%d", h_status(status), b2 != NULL, b2 && b2->errmsg[0] != 0,
+          b2 && b2->mem == NULL && b2->fp == NULL && b2->n == 0 && b2->mode_is == eslBUFFER_UNSET);
+    if (b2) esl_buffer_Close(b2);
+    return;
+  }
   if (!bf) { h_out("bad-op"); return; }
 
+  /* the same calls with NULL for the optional results (a line or token is skipped) */
+  if (!strcmp(op, "getline0") || !strcmp(op, "fetchline0") || !strcmp(op, "fetchlinestr0") ||
+      !strcmp(op, "gettoken0") || !strcmp(op, "fetchtoken0") || !strcmp(op, "fetchtokenstr0")) {
+    int64_t sl; unsigned char *sep = h_unhex(h_arg("sep") ? h_arg("sep") : "-", &sl);
+    lastp_ok = 0;
+    if      (!strcmp(op, "getline0"))       status = esl_buffer_GetLine(bf, NULL, NULL);
+    else if (!strcmp(op, "fetchline0"))     status = esl_buffer_FetchLine(bf, NULL, NULL);
+    else if (!strcmp(op, "fetchlinestr0"))  status = esl_buffer_FetchLineAsStr(bf, NULL, NULL);
+    else if (!strcmp(op, "gettoken0"))      status = esl_buffer_GetToken(bf, (char *) sep, NULL, NULL);
+    else if (!strcmp(op, "fetchtoken0"))    status = esl_buffer_FetchToken(bf, (char *) sep, NULL, NULL);
+    else                                    status = esl_buffer_FetchTokenAsStr(bf, (char *) sep, NULL, NULL);
+    free(sep);
+    answer(status, NULL, 0, 0);
+    return;
+  }
+
   if (!strcmp(op, "getline")) {
+    POISON(p, n);
     status = esl_buffer_GetLine(bf, &p, &n);
-    lastp = p; lastp_ok = (p != NULL);
+    lastp = p; lastp_ok = (p != NULL && p != h_poison);
     answer(status, p, n, 0); remember(p, n);
     return;
   }
   lastp_ok = lastp_ok && !strcmp(op, "set");   /* a pointer is only good for the very next call */
 
   if (!strcmp(op, "fetchline")) {
+    POISON(p, n);
     status = esl_buffer_FetchLine(bf, &p, &n);
-    answer(status, p, n, 0); free(p);
+    answer(status, p, n, 0); if (p != h_poison) free(p);
   } else if (!strcmp(op, "fetchlinestr")) {
+    POISON(p, n);
     status = esl_buffer_FetchLineAsStr(bf, &p, &n);
-    answer(status, p, n, p != NULL && p[n] == '\0'); free(p);
+    answer(status, p, n, p != NULL && p != h_poison && p[n] == '\0'); if (p != h_poison) free(p);
   } else if (!strcmp(op, "gettoken") || !strcmp(op, "fetchtoken") || !strcmp(op, "fetchtokenstr")) {
     int64_t sl; unsigned char *sep = h_unhex(h_arg("sep") ? h_arg("sep") : "-", &sl);
+    POISON(p, n);
     if (!strcmp(op, "gettoken")) {
       status = esl_buffer_GetToken(bf, (char *) sep, &p, &n);
-      lastp = p; lastp_ok = (p != NULL);
+      lastp = p; lastp_ok = (p != NULL && p != h_poison);
       answer(status, p, n, 0); remember(p, n);
     } else if (!strcmp(op, "fetchtoken")) {
       status = esl_buffer_FetchToken(bf, (char *) sep, &p, &n);
-      answer(status, p, n, 0); free(p);
+      answer(status, p, n, 0); if (p != h_poison) free(p);
     } else {
       status = esl_buffer_FetchTokenAsStr(bf, (char *) sep, &p, &n);
-      answer(status, p, n, p != NULL && p[n] == '\0'); free(p);
+      answer(status, p, n, p != NULL && p != h_poison && p[n] == '\0'); if (p != h_poison) free(p);
     }
     free(sep);
   } else if (!strcmp(op, "read")) {
@@ -155,8 +217,9 @@ static void h_op(void)
     if (status == eslOK) answer(status, dst, k, 0); else answer(status, NULL, 0, 0);
     free(dst);
   } else if (!strcmp(op, "get")) {
+    POISON(p, n);
     status = esl_buffer_Get(bf, &p, &n);
-    lastp = p; lastp_ok = (p != NULL);
+    lastp = p; lastp_ok = (p != NULL && p != h_poison);
     answer(status, p, n, 0); remember(p, n);
   } else if (!strcmp(op, "set")) {
     int64_t k = h_argi("k", 0);
